@@ -66,6 +66,13 @@ func r45TargetPathSuffix(c *core.Ctx) {
 						flat(be.Y)
 						return
 					}
+					// a named temporary for (part of) the concatenation
+					if o := core.ObjOf(info, e); o != nil && o != name && o != ext && o != dir && o != file && len(parts) < 8 {
+						if def := singleDef(info, f.Decl.Body, o); def != nil && assignedCount(info, f.Decl.Body, o) == 1 {
+							flat(def)
+							return
+						}
+					}
 					parts = append(parts, e)
 				}
 				flat(call.Args[1])
